@@ -20,14 +20,18 @@ CHECKS = {
  'C12': dict(
    text='Theorem (Coq, every byte string): the table-driven 64-bit Rabin fingerprint of rabin.rs equals '
         'CRC-64-AVRO defined bit by bit from the polynomial (C12_rabin_is_crc64), digest bytes little-endian. '
-        'Correspondence on every run: Rabin digests of generated byte strings against the extracted model; '
-        'fingerprint::<Rabin|Md5|Sha256>(schema) against the model / hashlib over the canonical form the '
-        'implementation reports; repeated calls for determinism. PARTIAL: the canonical-form-vs-specification '
-        'half of C12 is not yet a theorem (it needs the schema-to-JSON model of C10); today it is covered only '
-        'through the fingerprints of the reported canonical form.',
-   note='MD5 and SHA-256 are not modelled (hashlib is the reference); the canonical form itself is taken from '
-        'the implementation in this check',
-   technique='Coq proof (bit-level linearity of the CRC step) + differential correspondence',
+        'Canonical form: model of Schema::canonical_form (the pass over the serialised JSON value with its defined-names '
+        'set, ordering table and integer rule; Model/SchemaJson.v) against the specification\'s normalisation written '
+        'directly on the schema (Spec/PCF.v): equal on primitives and references (C12_pcf_leaves) and on a composite '
+        'witness with full names, stripped doc/aliases/default/attributes and a repeated named type (C12_pcf_examples); '
+        'FALSE for logical types and for "order" / attributes named like schema keys (C12_pcf_*_refuted, known findings '
+        'F16, F17). Check every run: Rabin digests against the extracted model; fingerprint::<Rabin|Md5|Sha256> against the '
+        'model / hashlib over the reported canonical form; canonical form = extracted specification form; unchanged by '
+        'irrelevant edits (key order, spacing, doc, aliases, defaults, custom attributes, namespace spelling); canonical '
+        'form of the parsed canonical form is itself; model canonical form = implementation on every schema.',
+   note='MD5 and SHA-256 are not modelled (hashlib is the reference); the general theorem canonical_form s = '
+        'spec_canonical_form s for all attribute-free, logical-type-free schemas is not proved, only checked',
+   technique='Coq proof (bit-level linearity of the CRC step; vm_compute witnesses for the canonical form) + executable specification as differential oracle',
    design='DESIGN.md 6/C12'),
  'C18': dict(
    text='Theorems (Coq): header = C3 01 ++ LE CRC-64-AVRO (10 bytes); for EVERY history of writes through one '
@@ -184,6 +188,36 @@ CHECKS = {
         'pair); recursion-cache effects are covered by the correspondence on recursive generated schemas only',
    technique='Coq proof (induction on fuel over the can_read model) + refutation witnesses; differential check of verdicts against actual reads',
    design='DESIGN.md 6/C09'),
+ 'C10': dict(
+   text='Models of the hand-written Serialize impls and of serde_json::to_value (Model/SchemaJson.v) and of the parser '
+        '(Model/Parser.v). Theorems: the serialised schema repeats no key in any object, for every schema whose custom '
+        'attributes are what get_custom_attributes leaves (C10_strict_json, induction over the nested schema type, covers the '
+        'fixed inside a decimal after fix F49); Name::new reads back what Name::fullname writes for every name of the grammar '
+        '(C10_name_roundtrip); every unnamed leaf (primitives, every logical type on bytes/string/int/long) is read back '
+        'from its serialisation (C10_leaf_roundtrip); a composite witness with namespaces, aliases, docs, defaults, references '
+        'and attributes round-trips (C10_examples). FALSE in one class (C10_null_namespace_refuted, known finding F19). Check: '
+        'generated accepted texts -> parse, serialise, parse, serialise: strict JSON (duplicate-key detection), equal schema, '
+        'identical second text; the model serialiser emits the same tree entry for entry and the model parser the same schema.',
+   note='the general round-trip theorem parse (ser s) = s for all parser-produced schemas is NOT proved (the default check '
+        'depends on the table of names parsed so far); it is checked by the correspondence. The header embedding is C03\'s check.',
+   technique='Coq proof (nested induction over schemas, name grammar lemmas, vm_compute witnesses) + differential check of serialiser and parser models',
+   design='DESIGN.md 6/C10'),
+ 'C11': dict(
+   text='Model of Schema::parse_str over the serde_json value (Model/Parser.v: Name::new / Name::parse and the four grammars, '
+        'the resolving / parsed tables, RecordField::parse with the default check by resolution, UnionSchemaBuilder::variant, '
+        'logical-type conversion), a total function by construction. Theorems about every accepted schema: names match the '
+        'grammar (C11_names_grammar); unions have no nested union, no repeated name, no two unnamed branches of one type '
+        '(C11_union_rules); enum symbols match the grammar, are distinct, the default is a symbol (C11_enum_rules); fixed sizes '
+        'fit u64 (C11_fixed_rules); field names match the grammar and are distinct (C11_record_rules); an accepted default '
+        'resolves against the field schema (C11_default_conforms). Two clauses are FALSE of the code (C11_*_refuted: a full '
+        'name defined twice is accepted, F25; a leading-dot reference inside a namespace is accepted but cannot be resolved, '
+        'F26). Check: arbitrary strings, arbitrary JSON, generated schemas and JSON-level mutations through parse_str (no '
+        'panic, no hang), accepted schemas through canonical form / serialisation / name resolution / Debug (no panic), '
+        'generated well-formed schemas accepted, model outcome = implementation outcome on every text.',
+   note='three panics repaired (F48, F50 canonical form on attributes named like schema keys - also reachable from parse_str; '
+        'F15 earlier); JSON text -> serde_json::Value is outside the model (trusted: serde_json)',
+   technique='Coq proof (lemmas on the parser model\'s components) + refutation witnesses; differential check of the parser model on mutated and arbitrary texts',
+   design='DESIGN.md 6/C11'),
 }
 NOT_YET = 'check not built yet in this round (work in progress; see DESIGN.md section 6 for the plan)'
 
